@@ -97,7 +97,7 @@ func (w *World) dynCallees(site ssa.CallInstruction) []*ssa.Function {
 			return nil
 		}
 		for _, fn := range w.Funcs {
-			if fn.Signature.Recv() == nil || fn.Name() != c.Method.Name() {
+			if fn.Signature.Recv() == nil || fn.Name() != c.Method.Name() || isTestFunc(w, fn) {
 				continue
 			}
 			rt := fn.Signature.Recv().Type()
@@ -137,6 +137,9 @@ func (w *World) addrTaken() []*ssa.Function {
 	}
 	set := map[*ssa.Function]bool{}
 	for _, fn := range w.Funcs {
+		if isTestFunc(w, fn) {
+			continue // test code is host code: its closures are not part of the library
+		}
 		for _, b := range fn.Blocks {
 			for _, in := range b.Instrs {
 				ops := in.Operands(nil)
@@ -753,6 +756,20 @@ func (a *Audit) auditFunc(fn *ssa.Function) {
 				}
 			case ssa.CallInstruction:
 				c := in.Common()
+				// a may-nil pointer boxed into the position carrier of an error: GetPosition calls a
+				// value-receiver method through it
+				if sc := c.StaticCallee(); sc != nil && sc.Name() == "NewLispError" && len(c.Args) == 2 {
+					if mi, ok := c.Args[1].(*ssa.MakeInterface); ok {
+						if _, isPtr := mi.X.Type().Underlying().(*types.Pointer); isPtr {
+							mayNil := a.valueMayBeNil(mi.X, b, map[*ssa.Function]bool{}, 0)
+							why := "position carrier is a pointer known to be non-nil"
+							if mayNil {
+								why = "a pointer that may be nil is boxed as the position carrier of an error: GetPosition calls a value-receiver method through it and panics"
+							}
+							a.site(fn, "carrier", canonVal(a.e, mi.X), instrPos(in), !mayNil, why)
+						}
+					}
+				}
 				if c.IsInvoke() {
 					if a.ifaceTainted(c.Value, b, 0) {
 						a.site(fn, "invoke", a.describe(c.Value)+"."+c.Method.Name(), instrPos(in), false, "method call on an interface value that may be nil")
